@@ -33,7 +33,7 @@ class Obligation:
 
     def add_to(self, s):
         hyps, goal = self.hyps, self.goal
-        if self.meta.get("drop_quantified") and self.expect == "valid":
+        if (self.meta.get("drop_quantified") and self.expect == "valid") or (self.meta.get("relaxed_witness") and self.expect == "sat"):
             # sound weakening: fewer hypotheses (quantified facts are dropped in the first, fast attempt)
             hyps = [h for h in hyps if not _has_quantifier(h)]
         if self.meta.get("abstract_mul") and self.expect == "valid":
@@ -155,7 +155,7 @@ class Contract:
                  ensures=None, modifies=(), loops=None, inline=False,
                  local_shapes=None, split=False, ghost=None, facts=None,
                  unroll_limit=200, use_contracts=(), scalars=None, notes="",
-                 tag="", fixed=None, after=None, hints=None, macros=None, gen=None, interp=None, lib="phonopy", auto_range=False, race=False, abstract_mul=False, derived=None, replay_ensures=None):
+                 tag="", fixed=None, after=None, hints=None, macros=None, gen=None, interp=None, lib="phonopy", auto_range=False, race=False, abstract_mul=False, derived=None, replay_ensures=None, prune=False):
         self.file = file
         self.func = func
         self.shapes = shapes or {}
@@ -184,6 +184,7 @@ class Contract:
         self.abstract_mul = abstract_mul  # try the UF-multiplication weakening first for this function's VCs
         self.derived = derived         # callable(V) -> [(label, formula)]: proved once from the requires, then usable as facts
         self.replay_ensures = replay_ensures  # callable(V): function-level clauses evaluated on the real code in replay only
+        self.prune = prune             # drop branches whose condition is unsatisfiable under the path condition (solver)
 
     def instance(self, tag=None, **fixed):
         import copy
